@@ -1,6 +1,7 @@
 import HpxVerif.Model.Topo
 import HpxVerif.Lemmas.TopoGen
 import HpxVerif.Lemmas.TopoComplete
+import HpxVerif.Lemmas.TopoLift2
 
 set_option autoImplicit false   -- an unknown identifier in a statement is an error, never a new variable
 
@@ -27,8 +28,9 @@ with the labelling of the property (ordinal: the two vertices of that side; card
 `neighbour_labelled` (ordinal: exactly the two vertices of that side; cardinal: exactly that vertex), `neighbours_distinct`,
 `neighbour_ne_self`, `neighbourParts_none_iff` + `neighbours_count` (8, or 7 exactly at the 24 special cells; 6 at `n = 1`),
 `neighbours_complete` / `neighbours_exact` (a distinct valid cell is a neighbour iff it touches), `neighbours_symmetric`.
-The lifting to cell numbers (`decode_hash`/`build_hash`, the bit-level fast path of `inner_cell_neighbours`) is in
-progress; until then it is covered by the correspondence check and the vertex-key oracle at all 30 depths.
+**On cell numbers, every depth `≤ 29`** (last section): `neighbour_spec`, `neighbours_spec` (both the border path and the
+bit-level fast path `inner_bits_correct`), `neighbours_labelled_hash`, `neighbours_distinct_hash`, `neighbours_count_hash`,
+`neighbours_complete_hash`, `neighbours_symmetric_hash`, `neighbour_agrees`, `ordinal_neighbours_exist`.
 -/
 
 namespace Hpx.C04
@@ -222,5 +224,116 @@ theorem special_iff_mem (n : Nat) (p : HashParts) (hn : 1 ≤ n) (hp : Valid n p
 
 
 end EveryGridSize
+
+/-! ## on cell NUMBERS, every depth `≤ 29`, both z-order builds, debug assertions on or off: the public functions
+
+`partsOf d h` / `numberOf d q` convert between a cell number and its parts (`decode_hash_spec`: that is what `decode_hash`
+computes; `h = d0h·4^d + interleave i j`); `nbList d hash inc` is the list, in `MainWind` index order, of
+`(dir, number of the parts-level neighbour)` for the directions that have one. -/
+
+section OnCellNumbers
+open Hpx Hpx.Topo Hpx.TopoSpec Hpx.TopoNeigh Hpx.TopoLift MW
+
+/-- `decode_hash` on a cell number of the depth, any build -/
+theorem decode_hash_spec (cfg : Cfg) (d : Nat) (hd : d ≤ 29) (h : Nat) (hh : h < 12 * 4 ^ d) :
+    Layer.decodeHash cfg d h = some (partsOf d h) :=
+  Hpx.TopoLift.decodeHash_spec cfg d hd h hh
+
+/-- **C04 on cell numbers, `neighbour_spec`**: on a cell number of the depth `Layer::neighbour` does not panic (in
+    particular the `debug_assert!(i < nside && j < nside)` of `build_hash` never fires) and returns the number of the
+    parts-level neighbour.  Every depth `≤ 29`, both z-order builds, debug assertions on or off. -/
+theorem neighbour_spec (cfg : Cfg) (d : Nat) (hd : d ≤ 29) (hash : Nat) (hh : hash < 12 * 4 ^ d) (dir : MW) :
+    Topo.neighbour cfg d hash dir = some ((neighbourParts (2 ^ d) (partsOf d hash) dir).map (numberOf d)) :=
+  Hpx.TopoLift.neighbour_spec cfg d hd hash hh dir
+
+/-- **C04, `inner_bits_correct`**: for a cell that is not on the border of its base cell, the masked-OR bit trick of
+    `inner_cell_neighbours` equals the coordinate arithmetic (u32 wrap included), entry by entry -/
+theorem inner_bits_correct (cfg : Cfg) (d : Nat) (hd : d ≤ 29) (b i j : Nat) (hb : b < 12)
+    (hi0 : 0 < i) (hi1 : i + 1 < 2 ^ d) (hj0 : 0 < j) (hj1 : j + 1 < 2 ^ d) :
+    innerCellNeighbours cfg d (num d b i j) =
+      some [(S, num d b (i - 1) (j - 1)), (SE, num d b i (j - 1)), (E, num d b (i + 1) (j - 1)),
+            (SW, num d b (i - 1) j), (NE, num d b (i + 1) j), (W, num d b (i - 1) (j + 1)),
+            (NW, num d b i (j + 1)), (N, num d b (i + 1) (j + 1))] :=
+  Hpx.TopoLift.inner_bits_correct cfg d hd b i j hb hi0 hi1 hj0 hj1
+
+/-- **C04 on cell numbers, `neighbours_spec`**: on a cell number of the depth `Layer::neighbours` does not panic and
+    returns, in `MainWind` index order (`S SE E SW C NE W NW N`), the entries `(dir, number of the parts-level neighbour)`
+    for the directions in which there is a neighbour (`C` iff `include_center`).  Both the border path
+    (`edge_cell_neighbours`) and the bit-level fast path (`inner_cell_neighbours`) give this.  Every depth `≤ 29`, both
+    z-order builds, debug assertions on or off. -/
+theorem neighbours_spec (cfg : Cfg) (d : Nat) (hd : d ≤ 29) (hash : Nat) (hh : hash < 12 * 4 ^ d) (inc : Bool) :
+    Topo.neighbours cfg d hash inc = some (nbList d hash inc) :=
+  Hpx.TopoLift.neighbours_spec cfg d hd hash hh inc
+
+/-- **C04 on cell numbers, `neighbours_labelled_hash`**: the entry `(dir, h')` of the map returned by `neighbours` is a
+    cell number of the depth whose cell shares with the cell `hash` exactly the vertices of the side (ordinal `dir`) /
+    the corner (cardinal `dir`) of `hash` in direction `dir` (all four for `C`) -/
+theorem neighbours_labelled_hash (cfg : Cfg) (d : Nat) (hd : d ≤ 29) (hash : Nat) (hh : hash < 12 * 4 ^ d) (inc : Bool)
+    (l : List (MW × Nat)) (h : Topo.neighbours cfg d hash inc = some l) (dir : MW) (h' : Nat) (hm : (dir, h') ∈ l) :
+    h' < 12 * 4 ^ d ∧ shared (2 ^ d) (partsOf d hash) (partsOf d h') = edgeOf dir :=
+  Hpx.TopoLift.neighbours_labelled_hash cfg d hd hash hh inc l h dir h' hm
+
+/-- **C04 on cell numbers, `neighbours_distinct_hash`**: the values of the map returned by `neighbours(hash, false)`
+    are pairwise distinct, differ from `hash`, and are cell numbers of the depth -/
+theorem neighbours_distinct_hash (cfg : Cfg) (d : Nat) (hd : d ≤ 29) (hash : Nat) (hh : hash < 12 * 4 ^ d)
+    (l : List (MW × Nat)) (h : Topo.neighbours cfg d hash false = some l) :
+    (l.map (·.2)).Nodup ∧ hash ∉ l.map (·.2) ∧ ∀ v ∈ l.map (·.2), v < 12 * 4 ^ d :=
+  Hpx.TopoLift.neighbours_distinct_hash cfg d hd hash hh l h
+
+/-- **C04 on cell numbers, `neighbours_count_hash`**: at depth `d ≥ 1` the map returned by `neighbours(hash, false)` has
+    8 entries, or 7 exactly for the 24 special cells (`Special`: the two cells of each base cell at a point where only
+    three cells meet; listed by `specialCells`); one more with the centre -/
+theorem neighbours_count_hash (cfg : Cfg) (d : Nat) (hd1 : 1 ≤ d) (hd : d ≤ 29) (hash : Nat) (hh : hash < 12 * 4 ^ d)
+    (inc : Bool) (l : List (MW × Nat)) (h : Topo.neighbours cfg d hash inc = some l) :
+    l.length = (if Special (2 ^ d) (partsOf d hash) then 7 else 8) + (if inc = true then 1 else 0) ∧
+    (Special (2 ^ d) (partsOf d hash) ↔ partsOf d hash ∈ specialCells (2 ^ d)) :=
+  Hpx.TopoLift.neighbours_count_hash cfg d hd1 hd hash hh inc l h
+
+/-- at depth 0 every cell has 6 neighbours -/
+theorem neighbours_count_hash_zero (cfg : Cfg) (hash : Nat) (hh : hash < 12) (inc : Bool) (l : List (MW × Nat))
+    (h : Topo.neighbours cfg 0 hash inc = some l) : l.length = 6 + (if inc = true then 1 else 0) :=
+  Hpx.TopoLift.neighbours_count_hash_zero cfg hash hh inc l h
+
+theorem specialHashes_length (d : Nat) : (specialHashes d).length = 24 :=
+  Hpx.TopoLift.specialHashes_length d
+
+/-- a cell number of the depth is special iff it is one of the 24 numbers `specialHashes d` -/
+theorem special_hash_iff (d : Nat) (hd : d ≤ 29) (hash : Nat) (hh : hash < 12 * 4 ^ d) :
+    Special (2 ^ d) (partsOf d hash) ↔ hash ∈ specialHashes d :=
+  Hpx.TopoLift.special_hash_iff d hd hash hh
+
+/-- **C04 on cell numbers, `neighbours_complete_hash`**: a cell number `h'` of the depth is a value of the map returned
+    by `neighbours(hash, false)` iff `h' ≠ hash` and the two cells have a vertex in common on the sphere -/
+theorem neighbours_complete_hash (cfg : Cfg) (d : Nat) (hd : d ≤ 29) (hash : Nat) (hh : hash < 12 * 4 ^ d)
+    (l : List (MW × Nat)) (h : Topo.neighbours cfg d hash false = some l) (h' : Nat) (hh' : h' < 12 * 4 ^ d) :
+    h' ∈ l.map (·.2) ↔ (h' ≠ hash ∧ Touch (2 ^ d) (partsOf d hash) (partsOf d h')) :=
+  Hpx.TopoLift.neighbours_complete_hash cfg d hd hash hh l h h' hh'
+
+/-- **C04 on cell numbers, `neighbours_symmetric_hash`**: if `h'` is a neighbour of `hash` then `hash` is a neighbour of
+    `h'` -/
+theorem neighbours_symmetric_hash (cfg : Cfg) (d : Nat) (hd : d ≤ 29) (hash : Nat) (hh : hash < 12 * 4 ^ d)
+    (l : List (MW × Nat)) (h : Topo.neighbours cfg d hash false = some l) (h' : Nat) (hm : h' ∈ l.map (·.2)) :
+    h' < 12 * 4 ^ d ∧ ∃ l', Topo.neighbours cfg d h' false = some l' ∧ hash ∈ l'.map (·.2) :=
+  Hpx.TopoLift.neighbours_symmetric_hash cfg d hd hash hh l h h' hm
+
+/-- **C04 on cell numbers, `neighbour_agrees`**: `neighbour(hash, dir)` is the entry `dir` of the map returned by
+    `neighbours(hash, include_center)` (`none` when there is no such entry), for every direction other than `C`, and for
+    `C` too when the centre is included -/
+theorem neighbour_agrees (cfg : Cfg) (d : Nat) (hd : d ≤ 29) (hash : Nat) (hh : hash < 12 * 4 ^ d) (inc : Bool)
+    (l : List (MW × Nat)) (h : Topo.neighbours cfg d hash inc = some l) (dir : MW) (hdir : dir ≠ C ∨ inc = true) :
+    Topo.neighbour cfg d hash dir = some (l.lookup dir) :=
+  Hpx.TopoLift.neighbour_agrees cfg d hd hash hh inc l h dir hdir
+
+/-- **C04 on cell numbers, `ordinal_neighbours_exist`**: in the four ordinal directions `SE SW NE NW` a cell always
+    has a neighbour: `neighbour` returns it, it is a cell number of the depth, and it is an entry of the map returned by
+    `neighbours` (needed by the bilinear interpolation, which `unwrap`s these entries) -/
+theorem ordinal_neighbours_exist (cfg : Cfg) (d : Nat) (hd : d ≤ 29) (hash : Nat) (hh : hash < 12 * 4 ^ d) (dir : MW)
+    (ho : dir.isOrdinal = true) :
+    ∃ h', Topo.neighbour cfg d hash dir = some (some h') ∧ h' < 12 * 4 ^ d ∧ h' ≠ hash ∧
+      ∀ inc l, Topo.neighbours cfg d hash inc = some l → (dir, h') ∈ l ∧ l.find? (·.1 == dir) = some (dir, h') :=
+  Hpx.TopoLift.ordinal_neighbours_exist cfg d hd hash hh dir ho
+
+
+end OnCellNumbers
 
 end Hpx.C04
